@@ -195,6 +195,7 @@ func (e *engine) runC13() {
 	keys := []*key{e.newKey(), e.newKey(), e.newKey()}
 	salts := [][]byte{nil, {}, {0}, []byte("salt"), []byte("salt2"), e.rng.Bytes(32), e.rng.Bytes(1000)}
 	e.runC13Args(keys, salts)
+	e.runC13Concurrent(keys) // determinism under concurrent derivations (c13conc.go)
 	e.runC13Norm(keys) // input-normalisation pairs (x, N(x)) for salt, context and key (c13b.go, harness/norm)
 	// matrix at n = 32
 	seen := map[string]string{}
